@@ -17,6 +17,7 @@ CONF = {
     "C01": tiers(2500, 4, 60000, 12),
     "C02": tiers(2500, 4, 40000, 12),
     "C03": tiers(2000, 4, 30000, 12),
+    "C04": tiers(3000, 4, 40000, 12),
     "C07": tiers(2500, 4, 40000, 12),
     "C16": tiers(1500, 4, 20000, 12),
     "C10": tiers(2500, 4, 40000, 12),
